@@ -17,6 +17,7 @@ import (
 //   C02.host <s> <toascii>  C02.lhost <s>      (answered by the C03 model ops ishost/islhost)
 //   C02.enum <alphabet> <len> <shard> <nshards>  direct-only exhaustive comparison
 //   std.parseaddr <s>  std.parseaddrport <s>   Lean model of net/netip vs the real one
+//   std.addrstring <addr>                      (netipfmt.go) Lean model of Addr.String / MarshalText
 
 func showAddrGo(a netip.Addr) string {
 	switch {
@@ -33,6 +34,8 @@ func showAddrGo(a netip.Addr) string {
 
 func evalStd(f []string) (Result, bool) {
 	switch f[0] {
+	case "std.addrstring":
+		return evalAddrString(f), true
 	case "std.parseaddr":
 		a, err := netip.ParseAddr(string(unhx(f[1])))
 		if err != nil {
@@ -331,6 +334,8 @@ func genC02(rng *rand.Rand, tier string) (cases []string) {
 			cases = append(cases, "C02.splitaddrport "+hx([]byte(genIPPortText(rng))))
 		}
 	}
+	// the formatter half of the netip model
+	cases = append(cases, genAddrString(rng, tier)...)
 	// hostname halves of the property (model ops live in the C03 driver)
 	for i := 0; i < n/6; i++ {
 		if rng.IntN(8) == 0 {
@@ -362,6 +367,9 @@ func candsC02(c string) (res []string) {
 	}
 	if strings.HasPrefix(f[0], "C03.") {
 		return candsC03(c)
+	}
+	if f[0] == "std.addrstring" {
+		return nil
 	}
 	s := string(unhx(f[1]))
 	for i := range s {
